@@ -25,10 +25,10 @@ type c15Case struct {
 }
 
 type c15Outcome struct {
-	violation  string
-	smallBuf   bool // some read buffer was smaller than the pending record
-	oversize   bool
-	zeroWrite  bool
+	violation string
+	smallBuf  bool // some read buffer was smaller than the pending record
+	oversize  bool
+	zeroWrite bool
 }
 
 // streamTransfer writes the given sizes on w and reads them back on r with the
